@@ -24,7 +24,8 @@ ASSUMPTIONS = c01.ASSUMPTIONS
 MONITORS = ["model_equality", "roundtrip", "restringify", "loads_detects_ssc", "tokenizer_structure", "chart_from_str", "eq_when_notes_last", "second_parse_after_editing_the_first"]
 REQUIRED = ["empty_notes", "interned_notes", "same_object_as_notes", "notes2", "notes_not_last", "chart_multi_value",
             "key_only_in_chart", "value_equal_to_notes", "notes_backslash_without_other_meta", "corpus_start",
-            "notes_moved_to_other_key_after_str", "key_starting_with_NOTES_before_the_notes", "simfile_with_32_or_more_charts"]
+            "notes_moved_to_other_key_after_str", "key_starting_with_NOTES_before_the_notes", "simfile_with_32_or_more_charts",
+            "chart_with_258_or_more_properties", "first_parameter_longer_than_64_KiB"]
 
 
 def anchors():
@@ -39,6 +40,11 @@ def anchors():
 
 
 def cases(ctx):
+    if ctx.shard == 0:
+        # the first parameter (VERSION) longer than 64 KiB, with an escaped character on text offsets 65534..65537
+        for d in (-1, 0, 1, 2):
+            k = 65535 + d - len("#VERSION:")
+            yield {"kind": KIND, "start": "blank", "ops": [["set", "VERSION", "x" * k + ":" + "tail;\\z"]], "pool": []}
     n = ctx.split(2500 if ctx.tier == "quick" else 16 * 25000)
     for i in range(n):
         case, repaired = E.gen_history(ctx.rng, KIND, f"v{ctx.shard}.{i}", identity=True)
@@ -155,6 +161,10 @@ def check(ctx, case):
         r = SSCSimfile(string=text)
     if len(m.charts) >= 32:
         ctx.feat("simfile_with_32_or_more_charts")
+    if any(len(c.d) >= 258 for c in m.charts):
+        ctx.feat("chart_with_258_or_more_properties")
+    if len(next(iter(m.d.values()), None) or "") > 65000:
+        ctx.feat("first_parameter_longer_than_64_KiB")
 
     if next(iter(m.d), None) == "VERSION":
         ctx.mon("loads_detects_ssc")
